@@ -484,8 +484,58 @@ def compare_op(op, il, ml, loaded, info, qfit, subnormal):
     return probs
 
 
+def shrink_arpa(arpa, still_fails, max_tests=150):
+    """Greedy line removal (highest orders first) with the count header kept consistent; `still_fails(bytes)` decides."""
+    lines, secs = sections(arpa)
+    N = max(secs)
+    removed = set()
+    tests = 0
+
+    def render(rem):
+        out = []
+        counts = {n: sum(1 for i, _ in secs[n] if i not in rem) for n in secs}
+        for i, ln in enumerate(lines):
+            if i in rem:
+                continue
+            m = re.match(rb"^ngram (\d+)=\d+(\r?)$", ln.strip(b"\n"))
+            if m and int(m.group(1)) in counts:
+                ln = b"ngram %d=%d" % (int(m.group(1)), counts[int(m.group(1))]) + m.group(2)
+            out.append(ln)
+        return b"\n".join(out)
+
+    for n in range(N, 0, -1):
+        for i, t in secs[n]:
+            if tests >= max_tests:
+                return render(removed)
+            if n == 1 and t[1] in (b"<s>", b"</s>", b"<unk>", b"<UNK>"):
+                continue
+            if n == N and sum(1 for j, _ in secs[N] if j not in removed) <= 1:
+                continue
+            tests += 1
+            if still_fails(render(removed | {i})):
+                removed.add(i)
+    return render(removed)
+
+
+QUIRK = {"on": 0}
+
+
+def detect_quirk(hexe, workdir):
+    """Does this tree's probing model report a +0.0 unigram that no bigram ends in as extending left (the sign-bit quirk
+    of Read1Gram, known finding of C01, repaired in later trees)?  Decides which table the model uses for probing."""
+    p = os.path.join(workdir, "quirk.arpa")
+    with open(p, "wb") as f:
+        f.write(b"\\data\\\nngram 1=4\nngram 2=1\n\n\\1-grams:\n-1\t<unk>\n-99\t<s>\t-0.5\n0\ta\n-1\tb\n\n\\2-grams:\n-0.5\t<s> b\n\n\\end\\\n")
+    rc, o, e = stream.run_lines(hexe, ["arpa %s classes=P" % p, "d N ( a )"], 120, env={"ASAN_OPTIONS": "detect_leaks=0"})
+    if rc != 0 or len(o) != 2:
+        return 0
+    first = segs(o[1]).get("P", "").split(" | ")[0].split()
+    return 1 if len(first) > 1 and first[1] == "1" else 0
+
+
 def run_case(hexe, dexe, arpa_path, lower, ops, mult, abits, classes):
     extra = (" lower=" + ",".join(lower)) if lower else ""
+    extra += " quirk=%d" % QUIRK["on"]
     head = "arpa %s mult=%s abits=%d classes=%s%s" % (arpa_path, mult, abits, classes, extra)
     lines = [head] + ops
     rc1, o1, e1 = stream.run_lines(hexe, lines, 600, env={"ASAN_OPTIONS": "detect_leaks=0"})
@@ -495,6 +545,8 @@ def run_case(hexe, dexe, arpa_path, lower, ops, mult, abits, classes):
 
 def left_stream(ctx, hexe, dexe, n_cases, quick):
     work = fresh_scratch("c08_%s_%d" % (ctx.pid, os.getpid()))
+    QUIRK["on"] = detect_quirk(hexe, work)
+    ctx.hist("left.probing_sign_quirk", QUIRK["on"])
     found = False
     for ci in range(n_cases):
         kind = ctx.rng.choice(["pruned", "pruned", "corpus", "random", None, "trailing-blank"])
@@ -580,10 +632,32 @@ def left_stream(ctx, hexe, dexe, n_cases, quick):
             (r1, a1, _), (r2, a2, _) = run_case(hexe, dexe, path, lower, [op], case.mult, case.abits, p["cls"] if p.get("cls") else classes)
             alone = r1 == 0 and r2 == 0 and len(a1) == 2 and len(a2) == 2 and \
                 bool(compare_op(op, a1[1], a2[1], [p["cls"]] if p.get("cls") else loaded, info, qfit, subnormal))
+            small = None
+            if alone and not lower and p.get("cls"):
+                # shrink the model: remove n-gram lines while this op still fails on this class (and the premise still holds)
+                spath = os.path.join(work, "shrink.arpa")
+
+                def still_fails(data):
+                    with open(spath, "wb") as f:
+                        f.write(data)
+                    (q1, b1, _), (q2, b2, _) = run_case(hexe, dexe, spath, None, [op], case.mult, case.abits, p["cls"])
+                    if q1 != 0 or q2 != 0 or len(b1) != 2 or len(b2) != 2:
+                        return False
+                    inf = parse_info(b2[0])
+                    if "error" in inf or not inf["ctx"] or not inf["distinct"] or not inf["proper"] or inf["ctxbo"] != info["ctxbo"]:
+                        return False
+                    if lmq.parse_load(b1[0]).get(p["cls"]) != "ok":
+                        return False
+                    return any(q["kind"] == p["kind"] for q in compare_op(op, b1[1], b2[1], [p["cls"]], inf, qfit, subnormal))
+                try:
+                    small = shrink_arpa(arpa, still_fails).decode("utf-8", "replace")
+                except Exception:      # shrinking is best effort
+                    small = None
             trie_only = all(q.get("cls") in ("T", "A", "Q", "B") for b in bad for q in b[2])
             key = KEY_G if (trie_only and not info["closed"] and info["blanks"] > 0) else None
             if ctx.violation("left: %s disagrees (%s) on `%s`" % (NAMES.get(p.get("cls"), "model"), p["kind"], op[:80]),
                              dict(base, op=op, first_problem=p, all_problems=probs[:6], failing_ops=len(bad), reproduces_alone=alone,
+                                  shrunk_arpa=small,
                                   trie_family_only=trie_only, impl_line=o1[1 + oi][:1500], model_line=o2[1 + oi][:1500]), key=key):
                 found = True
         if ci < 2:
